@@ -47,6 +47,12 @@ NAMESPACES = {'ns': 'http://example.com/ns', 'svg': 'http://www.w3.org/2000/svg'
 CUSTOM = {':--header': 'h1, h2, h3, h4', ':--parent': ':has(> *|*)', ':--odd-item': 'li:nth-child(odd)',
           ':--named': '[name], [id]', ':--deep': ':--header:not(:--parent)'}
 
+
+def _strict_stdout():
+    """what a program's standard output normally is: a UTF-8 text stream that REFUSES what cannot be encoded (lone surrogates).  The DEBUG
+    trace must get through it whatever the selector contains (io.StringIO would accept anything)."""
+    return io.TextIOWrapper(io.BytesIO(), encoding='utf-8', errors='strict', write_through=True)
+
 # ~150 valid selectors of every kind the parser knows (the DEBUG and pretty-printer pool)
 POOL = [
     # type, universal, id, class
@@ -95,6 +101,8 @@ POOL = [
     ':--header', ':--parent', ':--odd-item', ':--named', ':--deep', 'div > :--header', ':is(:--header, :--named)',
     # escapes, comments, odd spacing
     'a\\.b', '#\\31 23', '.\\-x', 'a /* c */ b', ' a , b ', 'a\n>\nb', 'a\r\n,\r\nb', ':is( a , b )',
+    # code points a strict output stream cannot take raw (lone surrogates, as bs4 trees and escape() can carry them), controls, non-BMP
+    'p.a, span.\ud800', '[t="\udfff"]', '#\udbff\ud800', ':-soup-contains("\ud83d")', '.\U0001f600', '[t="\x7f\x1b"]', ':lang("\udc00")',
 ]
 
 # additional objects for the pretty-printer: negative An+B terms, regex flags, nested lists, long values
@@ -197,7 +205,7 @@ def _e2e_work(chunk):
                   'ctx': e.context, 'msg': msg}
             # the DEBUG flag changes no result: the same diagnostics with flags=DEBUG
             try:
-                with contextlib.redirect_stdout(io.StringIO()):
+                with contextlib.redirect_stdout(_strict_stdout()):
                     sv.compile(pat, namespaces=NAMESPACES, custom=custom, flags=sv.DEBUG)
                 ev['dbg'] = 'compiled'
             except sv.SelectorSyntaxError as e2:
@@ -248,7 +256,7 @@ def _debug_work(chunk):
             plain = sv.compile(s, namespaces=NAMESPACES, custom=CUSTOM)
         except Exception as e:
             errs[0] = '%s: %s' % (type(e).__name__, str(e).split('\n')[0])
-        buf = io.StringIO()
+        buf = _strict_stdout()
         try:
             with contextlib.redirect_stdout(buf):
                 dbg = sv.compile(s, namespaces=NAMESPACES, custom=CUSTOM, flags=sv.DEBUG)
@@ -263,7 +271,7 @@ def _debug_work(chunk):
             rec['problems'].append('compile without DEBUG: %s; with DEBUG: %s' % (errs[0] or 'compiles', errs[1] or 'compiles'))
             out.append(rec)
             continue
-        rec['stdout_chars'] = len(buf.getvalue())
+        rec['stdout_chars'] = len(buf.buffer.getvalue())
         ncmp += 1
         if not (plain.selectors == dbg.selectors) or repr(plain.selectors) != repr(dbg.selectors):
             rec['problems'].append('.selectors differ: %s vs %s' % (repr(plain.selectors)[:300], repr(dbg.selectors)[:300]))
